@@ -36,6 +36,7 @@ def bstr_header_width(b: int):
 
 
 def run(ctx):
+    generic.kwargs_keys_are_dests(ctx, "C10-D4d keyword reads are option destinations", "suit_generator.cmd_cache_create")
     R = ctx.report
     generic.cli_converters(ctx, "C10-D4b CLI converters", "suit_generator.cmd_cache_create", 3)
     generic.subcommand_dispatch(ctx, "C10-D4c sub-command dispatch", "suit_generator.cmd_cache_create", 3)
